@@ -19,14 +19,24 @@ use std::collections::BTreeMap;
 pub struct RulesTrace {}
 
 const UNIVERSE: &[&str] = &[".hidden", "src/.cfg", "foo", "bar", "baz", "src/a", "src/b", "src/x/c", "src/foo", "out/a", "out/b", "out/foo", "dst/a", "dst/foo", "a.c", "b.h", "x/y/z"];
-const PATTERNS: &[&str] = &["*", "foo", "bar", "src/*", "*.c", "src/a", "?ar", "[fb]oo", "[!f]oo", "out/*", "nothing", "a.c", "src/x/*", "dst/*", "a", "b", "*/a", "ba?", "x/y/z", "[a-c].[ch]"];
-const PREFIXES: &[&str] = &["src", "out", "dst", "src/x", "x/y", "nowhere"];
+const PATTERNS: &[&str] = &["*", "foo", "bar", "src/*", "*.c", "src/a", "?ar", "[fb]oo", "[!f]oo", "out/*", "nothing", "a.c", "src/x/*", "dst/*", "a", "b", "*/a", "ba?", "x/y/z", "[a-c].[ch]", "~*", "src/?bersicht", "*/~*"];
+const PREFIXES: &[&str] = &["src", "out", "dst", "src/x", "x/y", "nowhere", "src.d", "src-x"];
+/// names whose bytes sort in unusual places relative to the prefixes (before `/`, after `~`, beyond ASCII)
+const ODD_NAMES: &[&str] = &["src/~lock", "src/übersicht", "out/~", "dst/é", "~", "ünï", "src0", "src.d/a", "src-x/a", "out/a b", "src/~", "dst/~foo", "out/ünï"];
+
+fn pick_name(r: &mut Rng) -> &'static str {
+    if r.chance(1, 6) {
+        *r.pick(ODD_NAMES)
+    } else {
+        *r.pick(UNIVERSE)
+    }
+}
 
 fn arts(r: &mut Rng, n: usize, ctr: &mut u64) -> Artifacts {
     let mut a = Artifacts::new();
     for _ in 0..n {
         *ctr += 1;
-        a.insert(r.pick(UNIVERSE).to_string(), gen::digest_of(*ctr % 7, false));
+        a.insert(pick_name(r).to_string(), gen::digest_of(*ctr % 7, false));
     }
     a
 }
@@ -38,7 +48,7 @@ fn rule(r: &mut Rng, names: &[String]) -> Rule {
         1 => vec!["DELETE".into(), pat],
         2 => vec!["MODIFY".into(), pat],
         3 => vec!["ALLOW".into(), pat],
-        4 => vec!["REQUIRE".into(), r.pick(UNIVERSE).to_string()],
+        4 => vec!["REQUIRE".into(), pick_name(r).to_string()],
         5 => vec!["DISALLOW".into(), if r.chance(1, 12) { r.pick(&["[", "a**b", "**a", "[!"]).to_string() } else { pat }],
         _ => {
             let mut v: Rule = vec!["MATCH".into(), r.pick(&["*", "a", "foo", "b", "?", "*.c", "x/c", "c", "z"]).to_string()];
@@ -127,7 +137,7 @@ pub fn gen_rules_world(seed: u64) -> SupplyTrace {
                     labels.push("A-TAMPER-ONE-DIGEST".to_string());
                 }
                 1 => {
-                    mats.insert(r.pick(UNIVERSE).to_string(), gen::digest_of(800 + ctr, false));
+                    mats.insert(pick_name(&mut r).to_string(), gen::digest_of(800 + ctr, false));
                     labels.push("A-INJECT".to_string());
                 }
                 2 if !mats.is_empty() => {
@@ -138,7 +148,7 @@ pub fn gen_rules_world(seed: u64) -> SupplyTrace {
                 3 if !mats.is_empty() => {
                     let k = mats.keys().nth(r.idx(mats.len())).unwrap().clone();
                     let v = mats.remove(&k).unwrap();
-                    mats.insert(r.pick(UNIVERSE).to_string(), v);
+                    mats.insert(pick_name(&mut r).to_string(), v);
                     labels.push("A-RENAME".to_string());
                 }
                 _ => {}
@@ -160,7 +170,7 @@ pub fn gen_rules_world(seed: u64) -> SupplyTrace {
         }
         for _ in 0..r.below(3) {
             ctr += 1;
-            prods.insert(r.pick(UNIVERSE).to_string(), gen::digest_of(ctr % 7, false));
+            prods.insert(pick_name(&mut r).to_string(), gen::digest_of(ctr % 7, false));
         }
         if both {
             for a in [&mut mats, &mut prods] {
